@@ -46,7 +46,7 @@ def run(chk):
         if ok:
             proved, f2 = V.prove(chk, "C13", [])
             fails += f2
-        pkg = json.load(open(os.path.join(V.GEN, "pkg.json"))) if ok else None
+        pkg = CS.load_pkg(mmv)
         cases, meta = [], []
         for sn, pn, kind, en in sites(mmv):
             if pkg and sn not in pkg["classes"]:
